@@ -46,6 +46,33 @@ def encoder_values(S, st, kind, N):
     return Ag((Sq(ctx.top_int(st, u8, taint=True), ctx.const_int(st, 40, usz)), Sq(ctx.top_int(st, u8, taint=True), ctx.const_int(st, slen, usz))))
 
 
+def clause_repr(R, N, w, rule="C05-repr"):
+    """every polynomial gen_b0 hands out fits the encoder's field widths `w` and avoids the reserved pattern (ntru_gen opaque)"""
+    sk = skeleton.session()
+    gb = sk.find(f"falcon::SecretKey::<{N}>::gen_b0")
+    saved = sk.ctx.no_inline
+    sk.ctx.no_inline = lambda i: i.name == "falcon_rust::math::ntru_gen" or saved(i)
+    st = St()
+    u8 = sk.ty("u8")
+    seed = Sq(sk.ctx.top_int(st, u8, taint=True), sk.ctx.const_int(st, 32, sk.ctx.usize_ty()))
+    outs = sk.run(gb, [seed], st)
+    site = f"gen_b0::<{N}>"
+    if not outs or type(outs[0][0]) is not Sq or not outs[0][0].head or len(outs[0][0].head) != 4:
+        R.violation(rule, site, "could not determine the four returned polynomials", key=f"repr|{N}")
+    else:
+        r, rst = outs[0]
+        lim = [(1 << (w[1] - 1)) - 1, (1 << (w[0] - 1)) - 1, (1 << (w[2] - 1)) - 1, (1 << (w[2] - 1)) - 1]   # b0 = [g, -f, G, -F]
+        names = ["g", "-f", "G", "-F"]
+        for i in range(4):
+            pol = r.head[i]
+            e = pol.f[0].elem if type(pol) is Ag and type(pol.f[0]) is Sq else None
+            rng = rst.itv[e.vid] if type(e) is I else None
+            R.check(rng is not None and -lim[i] <= rng[0] and rng[1] <= lim[i], rule, f"{site} b0[{i}] = {names[i]}",
+                    f"coefficients within [{-lim[i]},{lim[i]}] (range {rng}): encodable in the field width and never the reserved pattern",
+                    f"coefficients may lie in {rng}, outside [{-lim[i]},{lim[i]}]: such a key is not representable in the fixed-width format (or hits the reserved pattern)",
+                    key=f"repr|{N}|{i}", data={"range": rng, "limit": lim[i]})
+
+
 def run(R):
     S = Session()
     ctx, E, prog = S.ctx, S.E, S.prog
@@ -98,29 +125,7 @@ def run(R):
             R.check(h == want_hdr[kind](logn), "C05-header", site, f"writes header byte 0x{want_hdr[kind](logn):02x}, the one the decoder accepts",
                     f"header byte written is {h if h is None else hex(h)}, the decoder accepts only 0x{want_hdr[kind](logn):02x}", key=f"hdr|{kind}|{N}")
         # (2) representability postcondition of gen_b0
-        sk = skeleton.session()
-        gb = sk.find(f"falcon::SecretKey::<{N}>::gen_b0")
-        saved = sk.ctx.no_inline
-        sk.ctx.no_inline = lambda i: i.name == "falcon_rust::math::ntru_gen" or saved(i)
-        st = St()
-        u8 = sk.ty("u8")
-        seed = Sq(sk.ctx.top_int(st, u8, taint=True), sk.ctx.const_int(st, 32, sk.ctx.usize_ty()))
-        outs = sk.run(gb, [seed], st)
-        site = f"gen_b0::<{N}>"
-        if not outs or type(outs[0][0]) is not Sq or not outs[0][0].head or len(outs[0][0].head) != 4:
-            R.violation("C05-repr", site, "could not determine the four returned polynomials", key=f"repr|{N}")
-        else:
-            r, rst = outs[0]
-            lim = [(1 << (w[1] - 1)) - 1, (1 << (w[0] - 1)) - 1, (1 << (w[2] - 1)) - 1, (1 << (w[2] - 1)) - 1]   # b0 = [g, -f, G, -F]
-            names = ["g", "-f", "G", "-F"]
-            for i in range(4):
-                pol = r.head[i]
-                e = pol.f[0].elem if type(pol) is Ag and type(pol.f[0]) is Sq else None
-                rng = rst.itv[e.vid] if type(e) is I else None
-                R.check(rng is not None and -lim[i] <= rng[0] and rng[1] <= lim[i], "C05-repr", f"{site} b0[{i}] = {names[i]}",
-                        f"coefficients within [{-lim[i]},{lim[i]}] (range {rng}): encodable in the field width and never the reserved pattern",
-                        f"coefficients may lie in {rng}, outside [{-lim[i]},{lim[i]}]: such a key is not representable in the fixed-width format (or hits the reserved pattern)",
-                        key=f"repr|{N}|{i}", data={"range": rng, "limit": lim[i]})
+        clause_repr(R, N, w)
         # (3) from_b0 deterministic
         fb = S.find(f"falcon::SecretKey::<{N}>::from_b0")
         effects.cone_is_deterministic(R, prog, [fb.id], "C05-effects", f"from_b0::<{N}>", floor_instances=100)
